@@ -223,9 +223,72 @@ def key_function_rule(rep, prog, cfg, type_name, as_str_name, trait, method, cmp
                 if psrc != want:
                     problems.append("operand %d of the delegated %s comes from parameter %s, expected %s: partial_cmp is the reverse of cmp"
                                     % (ai, allow_delegate.rsplit("::", 1)[-1], sorted(psrc), sorted(want)))
+    if problems and self_params == 1 and allow_delegate is None:
+        alt = per_arm_key_function(prog, b, type_name, as_str_name, cmp_names, method)
+        if alt is None:
+            problems = []
+        else:
+            problems.append("(read per variant: %s)" % alt)
     rep.check(not problems, rule, inst, where,
               "%s::%s for %s does not factor through the protocol name: %s" % (trait, method, type_name, "; ".join(sorted(set(problems)))),
               detail={"as_str_calls": n_as_str})
+
+
+def per_arm_key_function(prog, b, type_name, as_str_name, cmp_names, method):
+    """`match self { Tag::Other(raw) => <op>(raw), named => <op>(named.as_str()) }`: the catch-all variant holds its protocol name,
+    so using the payload in place is using the name — provided as_str returns that payload unchanged, every arm applies the one
+    operation to the name exactly once (through the same implementation, for hashing), and nothing else of the enum is read.
+    Returns None when this holds, else what does not."""
+    a = body_by_name(prog, as_str_name)
+    if len(a) != 1:
+        return "as_str not found"
+    lv, _ = Flow(a[0]).sources([0], through_call=identity_through, follow_mut=False)
+    if ("param", 1) not in lv or [x for x in lv if x[0] == "call" and identity_through(a[0].blocks[x[1]]["t"]) is None]:
+        return "as_str does not return the catch-all payload unchanged"
+    sws = [sw for sw in tables.discr_switches(b) if sw["adt"] == type_name or sw["adt"].endswith(type_name.split("::", 1)[-1])]
+    if len(sws) != 1 or sws[0]["place"]["l"] != 1:
+        return "expected one match on self, found %d" % len(sws)
+    sw = sws[0]
+    catch = [v for v in sw["arms"] if v == "Other"]
+    if catch != ["Other"] or len(set(sw["arms"].values())) != 1 or sw["otherwise"] == sw["arms"]["Other"]:
+        return "the match does not single out the catch-all variant only"
+    t_other, t_named = sw["arms"]["Other"], sw["otherwise"]
+    fl = Flow(b)
+    impls = []
+    for label, tb, rest in (("catch-all", t_other, t_named), ("named", t_named, t_other)):
+        region = tables.exclusive(b, tb, [rest]) or {tb}
+        calls = [(bb, t) for bb, t in b.calls() if bb in region and any(n in cmp_names for n in callee_names(t))]
+        if len(calls) != 1:
+            return "%s arm applies the operation %d times" % (label, len(calls))
+        bb, t = calls[0]
+        impls.append(tuple(callee_names(t)))
+        lv, _ = fl.sources([op_local(t["args"][0])], through_call=identity_through, follow_mut=False)
+        calls_in = [x[1] for x in lv if x[0] == "call"]
+        if label == "named":
+            if not any(as_str_name in callee_names(b.blocks[x]["t"]) for x in calls_in):
+                return "named arm does not go through as_str"
+            if any(identity_through(b.blocks[x]["t"]) is None and as_str_name not in callee_names(b.blocks[x]["t"]) for x in calls_in):
+                return "named arm transforms the name"
+        else:
+            if any(identity_through(b.blocks[x]["t"]) is None for x in calls_in) or ("param", 1) not in lv or [x for x in lv if x[0] == "const"]:
+                return "catch-all arm does not use its payload unchanged"
+        if method == "eq":
+            rl, _ = fl.sources([0], through_call=identity_through)
+            if ("call", bb) not in rl:
+                return "%s arm: the result is not the comparison" % label
+    if method == "hash" and impls[0] != impls[1]:
+        return "the two arms hash through different implementations (%s / %s)" % (impls[0][-1], impls[1][-1])
+    # nothing of the enum is read except the discriminant and the catch-all payload
+    for bb, i, st in b.stmts():
+        if st["k"] != "assign":
+            continue
+        rv = st["rv"]
+        pl = rv.get("place") if rv["k"] in ("ref", "discr") else (op_place(rv["op"]) if rv["k"] == "use" else None)
+        if pl is not None and pl["l"] == 1:
+            downs = [e.get("n") for e in pl["p"] if isinstance(e, dict) and "v" in e]
+            if downs and downs != ["Other"]:
+                return "reads the payload of %s" % downs
+    return None
 
 
 def run(rep, progs, tier):
